@@ -47,6 +47,11 @@ FROM_TOKEN = {
 
 def run(ck, F, E):
     grammar_rules(ck, F)
+    # "ABS and INT are absolute value and floor" whatever the program has defined: a called name is looked up among the builtins
+    # before the user's DEF table (C06's resolution rule, filed under this property too)
+    import framework
+    from props import C06
+    C06.resolution_order(framework.Rekeyed(ck, "C06", "C02:BUILTIN"), F)
     for enum, want in FROM_TOKEN.items():
         got = tables.from_token_table(F, enum)
         ck.require(got == want, "C02:TOKEN-TABLE:%s" % enum.split("::")[-1], "operator tables",
@@ -385,6 +390,20 @@ def exponent(ck, F):
     ok = len(pw) == 1 and expr_params(b.expr(pw[0].args[0])) == {0} and expr_params(b.expr(pw[0].args[1])) == {1}
     ck.require(ok, "C02:OP:exponent", "operator semantics", "^ -> f64::powf(left, right)",
                "evaluate_exponent no longer computes left.powf(right)", b.span)
+    # ... on every successful path, and by nothing else: `powi` for whole exponents multiplies step by step and rounds
+    # differently from powf (0.3 ^ 3, 3 ^ 34, 10 ^ -30 print other digits)
+    other = []
+    n_okp = 0
+    for r in path_records(b):
+        if r["outcome"] != "Ok":
+            continue
+        n_okp += 1
+        nm = [c.callee.split("::")[-1] for c in r["calls"] if "<impl f64>" in c.callee or "<impl f32>" in c.callee]
+        if "powf" not in nm or [x for x in nm if x in ("powi", "exp", "exp2", "ln", "log2", "log10", "sqrt", "cbrt", "mul_add", "recip", "exp_m1")]:
+            other.append(",".join(nm) or "no f64 call")
+    ck.require(n_okp >= 1 and not other, "C02:OP:exponent-all-paths", "operator semantics", "every successful path computes powf and no other power routine",
+               "evaluate_exponent has a success path that does not compute left.powf(right) (%s): whole-number exponents through powi "
+               "are rounded differently and print other digits" % "; ".join(sorted(set(other))), b.span)
     tf = [c for c in b.calls() if "TryFrom<abasic_core::value::Value> for f64" in c.callee]
     ck.require(len(tf) == 2, "C02:TYPING:exponent", "typing table", "both operands are converted with TryFrom<Value> for f64 (TYPE MISMATCH on strings)",
                "evaluate_exponent converts %d operands through the checked f64 conversion" % len(tf), b.span)
